@@ -154,7 +154,7 @@ func (w *World) end() {
 // walking the data directory, not through the store's own glob.
 func (w *World) setMtime(d string, t time.Time, id string) {
 	prefix := strings.TrimSuffix(d, filepath.Ext(d))
-	marker := "." + t.Format("20060102.15:04:05.000") + "." + id[:8]
+	marker := "." + t.Format("20060102.15:04:05.000") + "." + trunc8(id)
 	dirs, _ := os.ReadDir(w.data)
 	for _, de := range dirs {
 		n := de.Name()
